@@ -1199,7 +1199,7 @@ func GP() {
 
 // GlobalPointBudget: global-access points per execution; further ones are inert (count-based, so a replay
 // sees the same points). Heavy calls read package-level curve parameters millions of times.
-var GlobalPointBudget = 20000
+var GlobalPointBudget = 1500
 
 func gp() {
 	s := cur
